@@ -31,6 +31,15 @@ Prio_321 == <<200, 150, 100>>
 Prio_213 == <<150, 100, 200>>
 Prio_1234 == <<100, 150, 200, 250>>
 Prio_3142 == <<200, 100, 250, 150>>
+P2_2 == <<128, 128>>
+P2_3 == <<128, 128, 128>>
+P2_4 == <<128, 128, 128, 128>>
+Prio_Eq3 == <<128, 128, 128>>
+P2_3relay == <<100, 128, 110>>   \* priority2 decides; the relay in the middle has the worst one
+P2_2dec == <<127, 126>>           \* priority2 decides between two nodes
+NoCut == {}
+Cut_Ring3 == {{<<3, 2>>, <<1, 2>>}}      \* the ring starts as a chain; the closing link comes up later
+Cut_Par == {{<<1, 2>>, <<2, 2>>}}
 Cls_2 == <<248, 248>>
 Cls_2low == <<248, 6>>          \* node 2 has clockClass 6 (never slave) but the worse priority1
 Cls_2so == <<248, 255>>         \* node 2 slave-only: clockClass 255
@@ -44,4 +53,5 @@ So_3c == <<FALSE, FALSE, TRUE>>
 So_4 == <<FALSE, FALSE, FALSE, FALSE>>
 NoFaults == {}
 AllFaults == {"cut", "silence", "quality"}
+RestoreFaults == {"restore", "cut"}
 =============================================================================
